@@ -4,6 +4,7 @@ import (
 	"fmt"
 	"math"
 	"sort"
+	"strings"
 
 	"github.com/sahandsafizadeh/qeep/component/initializers"
 	"github.com/sahandsafizadeh/qeep/tensor"
@@ -91,6 +92,8 @@ func fan(r *sim.Rand) int {
 	return r.Range(65, 512)
 }
 
+var c18BadCat = []string{"creator-shape", "creator-params", "creator-shape", "creator-params", "update-nil-pointer", "update-nil-tensor", "update-no-gradient", "backprop-nil", "bcast-second-fails", "matmul-batch-both", "concat-two-dims-after", "reshape-count"}
+
 func (c18) Generate(r *sim.Rand, tier string) *sim.Scenario {
 	sc := &sim.Scenario{Cfg: map[string]float64{}}
 	sc.Cfg["rngseed"] = float64(r.Uint64() >> 12)
@@ -129,6 +132,7 @@ func (c18) Generate(r *sim.Rand, tier string) *sim.Scenario {
 		fs = append(fs, &focus{k, f, nc, c18Pool, r.Bool(0.5)})
 	}
 	pOther := []float64{0.05, 0.2, 0.4}[r.Intn(3)]
+	pBad := []float64{0, 0.1, 0.3}[r.Intn(3)]
 	for calls := 0; calls < 400; calls++ {
 		var live []*focus
 		for _, f := range fs {
@@ -138,6 +142,24 @@ func (c18) Generate(r *sim.Rand, tier string) *sim.Scenario {
 		}
 		if len(live) == 0 {
 			break
+		}
+		if r.Bool(pBad) {
+			// fault invalid-call: a rejected call between the draws — the next draw
+			// of the focus configuration, but with an impossible shape; or a
+			// rejected constructor, optimizer step or tensor operation
+			b := sim.Step{C: r.Intn(nclients), Op: "bad", Out: -1}
+			if r.Bool(0.5) {
+				f := live[r.Intn(len(live))]
+				b.Tag, b.F, b.B = f.kind, cpF(f.f), f.nilc
+				if f.kind == "randu" || f.kind == "randn" {
+					b.B = f.trk
+				}
+				b.I = [][]int{{0}, {3, -1}, {2, 0}, {-4}}[r.Intn(4)]
+			} else {
+				b.Tag = "cat:" + c18BadCat[r.Intn(len(c18BadCat))]
+				b.N = r.Intn(1 << 16)
+			}
+			sc.Steps = append(sc.Steps, b)
 		}
 		st := sim.Step{C: r.Intn(nclients), Op: "draw", Out: -1}
 		if r.Bool(pOther) {
@@ -353,11 +375,41 @@ func (prop c18) Execute(sc *sim.Scenario) *sim.Outcome {
 	var poolOrder []string
 	var seen []uint64
 	for si, st := range sc.Steps {
+		where := fmt.Sprintf("call %d (c%d %s %v shape %v nil-config=%v)", si, st.C, st.Tag, st.F, st.I, st.B)
+		if st.Op == "bad" {
+			sig = sig.Str("bad:" + st.Tag)
+			if strings.HasPrefix(st.Tag, "cat:") {
+				kind := strings.TrimPrefix(st.Tag, "cat:")
+				if badIndexOf(kind) < 0 {
+					out.Discard = "malformed"
+					return out
+				}
+				oracle, msg, _, _ := badVerdict(kind, st.N, nil)
+				out.Faults["invalid-call/"+kind]++
+				if oracle != "" {
+					out.Fail(oracle, "%s: %s", where, msg)
+					return fin()
+				}
+				continue
+			}
+			for rep := 0; rep < 2; rep++ {
+				t, err, _, _ := c18draw(st)
+				if err != nil && err.Error() == "malformed" {
+					out.Discard = "malformed"
+					return out
+				}
+				if err == nil || t != nil {
+					out.Fail("invalid-call-accepted", "%s: a call with an impossible shape returned no error (or a result)", where)
+					return fin()
+				}
+			}
+			out.Faults["invalid-call/draw-with-impossible-shape"]++
+			continue
+		}
 		if st.Op != "draw" {
 			out.Discard = "malformed"
 			return out
 		}
-		where := fmt.Sprintf("call %d (c%d %s %v shape %v nil-config=%v)", si, st.C, st.Tag, st.F, st.I, st.B)
 		sig = sig.Str(st.Tag)
 		t, err, p, random := c18draw(st)
 		if st.N == 1 {
